@@ -137,7 +137,10 @@ func run(prop, tier string) int {
 		wg.Add(1)
 		go func(i int) {
 			defer wg.Done()
-			annPath := filepath.Join(annDir, fmt.Sprintf("%s.%d", prop, i))
+			// unique per driver process: two runs of one check at the same time (quick and thorough, say) must not share the
+			// mapping - re-creating a file another worker has mapped kills that worker with SIGBUS
+			annPath := filepath.Join(annDir, fmt.Sprintf("%s.%d.%d", prop, os.Getpid(), i))
+			defer os.Remove(annPath)
 			resume := int64(0)
 			deadline := time.Now().Add(limit)
 			for attempt := 0; attempt < 40; attempt++ {
